@@ -7,13 +7,21 @@ Requests (one per line; `F` is a fault: `-` none, `f<k>` fail the k-th commit of
 `c<k>` crash after the k-th commit of the call, `i` the lazy initialisation's write fails, `ci` crash
 after that write):
 
-* `cfg <W> <abc>`                            new empty node with window size W; a,b,c,d ∈ {0,1}: which
-                                             repairs (`Fixes`) the code under test contains
+* `cfg <W> <abcd[p]>`                        new empty node with window size W; a,b,c,d ∈ {0,1}: which
+                                             repairs (`Fixes`) the code under test contains; p = 1: the
+                                             node uses the floor-aware filter initialiser (calls = `execP`,
+                                             the default wiring of `blockchain.New`), p = 0 / absent: `exec`
 * `blk <num> <hash> <parent> <root> <oldroot> <applied> <bits> <txs>`   append a block to the base chain
-* `base <s|->`                               node := canonical image of the base chain (graceful
-                                             shutdown snapshot at next = s, or none), lazy memory
+* `base <s|-> [F]`                           node := canonical image of the base chain (graceful
+                                             shutdown snapshot at next = s, or none), pruned below F
+                                             (default 0 = never pruned), lazy memory
 * `store <num> <hash> <parent> <root> <oldroot> <applied> <bits> <txs> F`
 * `revert F` | `l1head <v> F` | `snap F` | `restart F` | `kill` | `prune <end> F`
+* `l1event <l1> <R> F`   `Pruner.onNewL1Head(l1)` of a pruner with numRetainedBlocks = R: raises the
+                         shared retention floor, then `PruneUpto(l1-R)` (a sixth `cfg` flag w = 1: the
+                         node is wired as node.New does — floor shared and seeded at process start)
+* `pfloor`               the in-memory retention floor (`-` = unseeded)
+* `served <k>`           does `StateAtBlockNumber(k)` hand out a reader (`y` / `n`)
 * `basecheck`  compares the closed-form base image with the fold of the model's own store writes
 * `touchp` | `initp` | `initpbits`   the same for a pruning node (`pruner.InitializeRunningEventFilter`)
 * `floor`      OldestRetainedBlock;  `ncommits prune <e>`  how many batches `prune e` would write
@@ -43,6 +51,14 @@ structure DState where
   base : List Block   -- reversed
   saved : Option Node := none
   ix : Option ChainIdx := none
+  /-- the `Blockchain` was built with the floor-aware filter initialiser
+  (`pruner.InitializeRunningEventFilter`, the default of `blockchain.New`): calls are `execP` -/
+  pr : Bool := false
+  /-- the shared in-memory retention floor of the process (`none` = unseeded) and whether the node
+  is wired as `node.New` does (`WithRetentionFloor` + `Seed` at start, pruner shares it) -/
+  floor : Option Nat := none
+  wired : Bool := false
+  savedFloor : Option Nat := none
 
 def parseNat? (s : String) : Option Nat := s.toNat?
 
@@ -128,6 +144,22 @@ def chainLookup (c : Array Block) (hashIdx : Std.HashMap Nat Nat) (txIdx : Std.H
   | .state => c.back?.map (fun b => .num b.root)
   | _ => none
 
+/-- Closed form of the image of the chain pruned below `F` by ONE `PruneUpto(F)` from a never-pruned
+node (header lag `lag`; the persisted windows are added by `overlay`): what `PCoh` describes. `F = 0`
+is `chainLookup`. `basecheck` compares it with the model's own prune on every key of a short chain. -/
+def chainLookupP (F lag : Nat) (c : Array Block) (hashIdx : Std.HashMap Nat Nat)
+    (txIdx : Std.HashMap Nat (Nat × Nat)) (k : Key) : Option Val :=
+  match k with
+  | .height => if c.size = 0 then none else some (.num (c.size - 1))
+  | .header n => if n + lag < F then none else c[n]?.map .blk
+  | .numByHash h => (hashIdx[h]?).bind (fun n => if n + 1 < F then none else some (.num n))
+  | .txs n => if n < F then none else c[n]?.map .blk
+  | .su n => if n < F then none else c[n]?.map .blk
+  | .commit n => if F ≤ n ∧ n < c.size then some (.num n) else none
+  | .txLookup t => (txIdx[t]?).bind (fun x => if x.1 < F then none else some (.idx x.1 x.2))
+  | .state => c.back?.map (fun b => .num b.root)
+  | _ => none
+
 @[noinline] def mkChainIdx (c : List Block) : ChainIdx :=
   let arr := c.toArray
   { arr := arr
@@ -135,6 +167,8 @@ def chainLookup (c : Array Block) (hashIdx : Std.HashMap Nat Nat) (txIdx : Std.H
     txIdx := arr.foldl (fun m b => (b.txs.foldl (fun (acc : Std.HashMap Nat (Nat × Nat) × Nat) t => (acc.1.insert t (b.num, acc.2), acc.2 + 1)) (m, 0)).1) {} }
 
 def chainDiskFast (ix : ChainIdx) : Disk := chainLookup ix.arr ix.hashIdx ix.txIdx
+
+def chainDiskFastP (F : Nat) (ix : ChainIdx) : Disk := chainLookupP F blockHashLag ix.arr ix.hashIdx ix.txIdx
 
 def chainKeys (W : Nat) (c : List Block) : List Key :=
   [.height, .state, .snap, .l1head]
@@ -146,52 +180,83 @@ structure Boxed where
 
 /-- Windows of the complete windows and the snapshot on top of the chain image. Every choice is
 made on `Boxed` values, never on bare `Disk` functions (see `ChainIdx`). -/
-def overlay (W : Nat) (c : List Block) (snap : Option Nat) (d : Disk) : Boxed :=
+def overlay (W : Nat) (c : List Block) (snap : Option Nat) (d : Disk) (F : Nat := 0) : Boxed :=
   let full := c.length / W
-  let ws : List Write := (List.range full).map (fun i => .put (.win (i * W)) (.win (winOfChain W c (i * W))))
+  let ws : List Write := ((List.range full).filter (fun i => decide (wstart W F ≤ i * W))).map
+    (fun i => .put (.win (i * W)) (.win (winOfChain W c (i * W))))
   let ws := match snap with
     | none => ws
     | some s => ws ++ [.put .snap (.snap (winOfChain W (c.take s) (wstart W s)) s)]
   ⟨applyBatch d ws⟩
 
-def baseDisk (W : Nat) (c : List Block) (ix : ChainIdx) (snap : Option Nat) : Boxed :=
-  match decide (c.length ≤ 64) with
+def baseDisk (W : Nat) (c : List Block) (ix : ChainIdx) (snap : Option Nat) (F : Nat := 0) : Boxed :=
+  match decide (c.length ≤ 64 ∧ F = 0) with
   | true => overlay W c snap (applyBatch Disk.empty (chainWrites c))
-  | false => overlay W c snap (chainDiskFast ix)
+  | false => overlay W c snap (chainDiskFastP F ix) F
+
+/-- The model's own image of the chain pruned below `F` in one batch (for `basecheck`). -/
+def prunedByModel (W : Nat) (c : List Block) (F : Nat) : Disk :=
+  let d := applyBatch Disk.empty (chainWrites c)
+  applyCommits d (prunePlanThr W ⟨d, .lazy⟩ F (fun _ _ => false)).commits
 
 def doOp (s : DState) (op : Op) (ft : Fault) : DState × String :=
-  let (n', o) := exec s.W s.fx s.node op ft
-  ({ s with node := n' }, outStr o)
+  if s.pr then
+    let (pn, o) := pexec true s.W s.fx ⟨s.node, s.floor, s.wired⟩ (.call op) ft
+    ({ s with node := pn.node, floor := pn.floor }, outStr o)
+  else
+    let (n', o) := exec s.W s.fx s.node op ft
+    ({ s with node := n' }, outStr o)
+
+def flag? (c : Char) : Option Bool := if c == '1' then some true else if c == '0' then some false else none
 
 def step (s : DState) (line : String) : DState × String :=
   match words line with
   | ["cfg", w, fxs] =>
-    let flag (c : Char) : Option Bool := if c == '1' then some true else if c == '0' then some false else none
     match parseNat? w, fxs.toList with
     | some w, [a, b, c, e] =>
-      match flag a, flag b, flag c, flag e with
+      match flag? a, flag? b, flag? c, flag? e with
       | some a, some b, some c, some e =>
-        if w = 0 then (s, "bad-op") else (⟨w, ⟨a, b, c, e⟩, Node.init, [], none, none⟩, "ok")
+        if w = 0 then (s, "bad-op") else (⟨w, ⟨a, b, c, e⟩, Node.init, [], none, none, false, none, false, none⟩, "ok")
       | _, _, _, _ => (s, "bad-op")
+    | some w, [a, b, c, e, p] =>
+      match flag? a, flag? b, flag? c, flag? e, flag? p with
+      | some a, some b, some c, some e, some p =>
+        if w = 0 then (s, "bad-op") else (⟨w, ⟨a, b, c, e⟩, Node.init, [], none, none, p, none, false, none⟩, "ok")
+      | _, _, _, _, _ => (s, "bad-op")
+    | some w, [a, b, c, e, p, wi] =>
+      match flag? a, flag? b, flag? c, flag? e, flag? p, flag? wi with
+      | some a, some b, some c, some e, some p, some wi =>
+        if w = 0 then (s, "bad-op")
+        else (⟨w, ⟨a, b, c, e⟩, Node.init, [], none, none, p, freshFloor wi Node.init.disk, wi, none⟩, "ok")
+      | _, _, _, _, _, _ => (s, "bad-op")
     | _, _ => (s, "bad-op")
   | "blk" :: rest =>
     match parseBlock? rest with
     | some b => ({ s with base := b :: s.base }, "ok")
     | none => (s, "bad-op")
-  | ["base", sn] =>
+  | "base" :: sn :: rest =>
     let c := s.base.reverse
     let snap : Option (Option Nat) := if sn == "-" then some none else (parseNat? sn).map some
-    match snap with
-    | some sp =>
+    let fl : Option Nat := match rest with | [] => some 0 | [f] => parseNat? f | _ => none
+    match snap, fl with
+    | some sp, some F =>
       let ix := mkChainIdx c
-      let bd := baseDisk s.W c ix sp
-      ({ s with node := ⟨bd.disk, .lazy⟩, base := [], ix := some ix }, "ok")
-    | none => (s, "bad-op")
+      let bd := baseDisk s.W c ix sp F
+      ({ s with node := ⟨bd.disk, .lazy⟩, base := [], ix := some ix, floor := freshFloor s.wired bd.disk }, "ok")
+    | _, _ => (s, "bad-op")
   | ["basecheck"] =>
     let c := s.base.reverse
     let d1 := applyBatch Disk.empty (chainWrites c)
-    let d2 := chainDiskFast (mkChainIdx c)
-    (s, if (chainKeys s.W c).all (fun k => d1 k == d2 k) then "same" else "differ")
+    let ix := mkChainIdx c
+    let d2 := chainDiskFast ix
+    let keys := chainKeys s.W c
+    let plain := keys.all (fun k => d1 k == d2 k)
+    -- the pruned closed form against the model's own single-batch prune, every floor below the head
+    let pruned := (List.range c.length).all (fun F =>
+      let dm := prunedByModel s.W c F
+      let df := chainDiskFastP F ix
+      keys.all (fun k => match k with | .win _ => true | _ => dm k == df k))
+    (s, if plain && pruned then "same" else "differ")
   | "store" :: rest =>
     match rest.getLast?, parseBlock? rest.dropLast with
     | some f, some b =>
@@ -211,7 +276,8 @@ def step (s : DState) (line : String) : DState × String :=
     match parseNat? e, parseFault? f with
     | some e, some ft => doOp s (.prune e) ft
     | _, _ => (s, "bad-op")
-  | ["touch"] => ({ s with node := ensureInit s.W s.node }, "ok")
+  | ["touch"] =>
+    ({ s with node := if s.pr then ensureInitG (initFilterP s.W) s.node else ensureInit s.W s.node }, "ok")
   | ["touchp"] => ({ s with node := ensureInitP s.W s.node }, "ok")
   | ["initp"] =>
     (s, match initFilterP s.W s.node.disk with | some (f, _) => s!"{f.win.lo}/{f.next}" | none => "err")
@@ -225,10 +291,21 @@ def step (s : DState) (line : String) : DState × String :=
     match parseNat? e with
     | some e => (s, toString (prunePlan s.W s.node e).commits.length)
     | none => (s, "bad-op")
-  | ["save"] => ({ s with saved := some s.node }, "ok")
+  | ["save"] => ({ s with saved := some s.node, savedFloor := s.floor }, "ok")
   | ["load"] =>
     match s.saved with
-    | some n => ({ s with node := n }, "ok")
+    | some n => ({ s with node := n, floor := s.savedFloor }, "ok")
+    | none => (s, "bad-op")
+  | ["l1event", l1, r, f] =>
+    match parseNat? l1, parseNat? r, parseFault? f with
+    | some l1, some r, some ft =>
+      let (pn, o) := pexec true s.W s.fx ⟨s.node, s.floor, s.wired⟩ (.l1event l1 r) ft
+      ({ s with node := pn.node, floor := pn.floor }, outStr o)
+    | _, _, _ => (s, "bad-op")
+  | ["pfloor"] => (s, optNat s.floor)
+  | ["served", k] =>
+    match parseNat? k with
+    | some k => (s, if stateServed s.floor s.node.disk k then "y" else "n")
     | none => (s, "bad-op")
   | ["obs"] => (s, obsStr s.W s.node)
   | ["obsd"] => (s, obsStr s.W ⟨s.node.disk, .lazy⟩)
@@ -262,4 +339,4 @@ def step (s : DState) (line : String) : DState × String :=
     | none => (s, "bad-op")
   | _ => (s, "bad-op")
 
-def main : IO Unit := loop step ⟨8192, Fixes.none, Node.init, [], none, none⟩
+def main : IO Unit := loop step ⟨8192, Fixes.none, Node.init, [], none, none, false, none, false, none⟩
